@@ -713,7 +713,10 @@ fn exec_make_mut(slot: usize) -> R {
                     w.stats.consume_ok += 1;
                 }
                 None => {
-                    w.viol("count", true, format!("make_mut on shared #{} (strong {}) did not clone the value", t, s));
+                    // the value was moved out from under the other strong handles: whoever can reach
+                    // them no longer finds the original, intact value
+                    let rule = if w.reachable()[t as usize] { "live" } else { "count" };
+                    w.viol(rule, true, format!("make_mut on shared #{} (strong {}) did not clone the value: the other handles now refer to a moved-out value", t, s));
                 }
             }
         } else if wk != 0 {
